@@ -154,10 +154,14 @@ DED.update({
 DED["C07"] = ("Network.run_routing_backward under C06's certificate (predecessor tree, the source is the root): None exactly when the target has "
               "no antecedent; otherwise the walk through the antecedents ends at the source, the recorded path is that chain reversed (source to "
               "target), consecutive nodes are joined by the recorded antecedent edge (an arc in the direction of travel by C06's TREE clause), and "
-              "the weights of the edges used sum to the target's label, i.e. the shortest distance. C06's TREE clause itself is proved on the "
-              "forward loop.",
-              "every GEOMETRY clause (edge polylines chained end to end, oriented along the travel, junction vertices not repeated, starting at the "
-              "source's position) is bounded only: Track.copy / reverse / > / + are opaque in this contract; termination of the walk is not proved.")
+              "the weights of the edges used sum to the target's label, i.e. the shortest distance. GEOMETRY (Track.reverse verified, Track.copy a "
+              "trusted deepcopy, `> 1` and `+` by C04's contracts): the returned track is the chain of the walked edges' polylines, each oriented "
+              "along the walk, chained end to end with every junction vertex taken once (vertex K0 of walked edge J0 at index OFF[J0] + K0 of the "
+              "chain, for arbitrary J0, K0; one vertex per edge vertex), reversed so that it starts at the source node's position and ends at the "
+              "target's.",
+              "termination of the walk is not proved; ASSUMED network geometry: every listed edge has the listing node as an end, every edge "
+              "polyline has >= 2 numeric fixes and runs from its source node's position to its target node's. IEEE rounding of coordinates: "
+              "bounded only.")
 DED["C02"] = ("40 operator classes against their documented pointwise definitions written independently of the code (Adder, Substracter, "
               "Multiplier, Divider with x/0 = NaN, Above, Below, PointwiseEqualer; ScalarAdder, ScalarSubstracter, ScalarRevSubstracter, "
               "ScalarMuliplier, Scalar(Rev)Below / Above; Differentiator, Forward / Backward / Centered / SecondOrder finite differences with "
